@@ -16,7 +16,8 @@ Oracles on the real code (never use the model):
             cache on == cache off, three methods x strip on/off
 Correspondence: `gdrv C09 cflat`: the real NamespaceFlattener(prefixes, cache=True / False) alone on those item
 streams against the Lean model of the filter with its cache (`Xml.cflatten`, Model/OutputFlattenCache.lean), typed
-values compared with their types; the same renders against the Lean model (`gdrv C09 render`), all configurations;
+values compared with their types; `gdrv C09 flatser` (stream `sert`): that filter followed by the main loop of the method, both with the
+same cache flag, against `serT` (Model/OutputFlatPipeline.lean); the same renders against the Lean model (`gdrv C09 render`), all configurations;
 `gdrv C09 loopm`: the main loops alone (filters removed) on typed events — START / EMPTY data whose
 attribute values are Markup or plain — against the Lean model of the repaired loops (`loopT`).
 """
@@ -307,9 +308,28 @@ def render_items(items, cfg):
         return ('err', type(e).__name__)
 
 
+def sert_real(items, pref, method, cache, dropd):
+    """the real serializer behind EmptyTagFilter: NamespaceFlattener(prefixes, cache) + the main loop"""
+    from genshi.output import NamespaceFlattener
+    ser = outlib.serializer(outlib.config(method, False, cache, None, dropd))
+    ser.filters = [NamespaceFlattener(prefixes=pref, cache=cache)]
+    try:
+        return ''.join(ser(iter(F.to_events(items))))
+    except Exception as e:  # noqa
+        return ('err', type(e).__name__)
+
+
+def sert_line(items, pref, method, cache, dropd):
+    d = {F.XML_NS: 'xml'}
+    d.update(pref or {})
+    return proto.line(Atom('C09'), Atom('flatser'), Atom(method), outlib.B(cache), outlib.B(dropd),
+                      sorted([u, p] for u, p in d.items()), F.to_wire(items))
+
+
 def flat_cache_part(rng, n, res):
     """n item streams: oracle flat-cache on the whole serializer, correspondence cflat on the filter alone"""
     lines, meta = [], []
+    slines, smeta = [], []
     for _ in range(n):
         items, pref, shape = F.gen_items(rng)
         res.count('cflat:shape:' + shape)
@@ -325,6 +345,24 @@ def flat_cache_part(rng, n, res):
         for cache in (True, False):
             lines.append(F.model_line(items, pref, cache))
             meta.append((items, pref, cache, shape))
+        if any(it[0] == 'NS' and it[2] is None for it in items):
+            # the URI None is written by escape(None) = ''; the model carries the reserved string U+0000
+            res.count('sert:skipped-none-uri')
+        else:
+            m = rng.choice(outlib.METHODS)
+            dropd = rng.random() < 0.7
+            for cache in (True, False):
+                slines.append(sert_line(items, pref, m, cache, dropd))
+                smeta.append((items, pref, m, cache, dropd))
+    for (items, pref, m, cache, dropd), ans in zip(smeta, proto.run_lines(slines)):
+        model = outlib.model_answer(ans)
+        real = sert_real(items, pref, m, cache, dropd)
+        res.streams['sert'] = res.streams.get('sert', 0) + 1
+        res.evaluations += 1
+        if model != real:
+            res.disagreements.append({'stream': 'sert', 'case': {'kind': 'flat-cache', 'items': items, 'prefixes': pref,
+                                                                  'cache': cache, 'method': m, 'strip': False},
+                                      'model': repr(model)[:600], 'real': repr(real)[:600]})
     for (items, pref, cache, shape), ans in zip(meta, proto.run_lines(lines)):
         ans = proto.dec(ans)
         model = F.model_json(ans[0])
